@@ -143,7 +143,12 @@ func (gc *primaryGC) gc(ctx context.Context, lowUsePercent int64, timeLimit time
 	}
 
 	// GC each unvisited file in order.
-	for fileNum := header.FirstFile; fileNum != gc.primary.fileNum; fileNum++ {
+	// fileNum is advanced by flushBlock under the flush lock.
+	gc.primary.flushLock.Lock()
+	lastFileNum := gc.primary.fileNum
+	gc.primary.flushLock.Unlock()
+
+	for fileNum := header.FirstFile; fileNum != lastFileNum; fileNum++ {
 		if _, ok := gc.visited[fileNum]; ok {
 			continue
 		}
